@@ -1191,7 +1191,10 @@ def np_column_stack(interp, st, args, kwargs, node):
     w = args[0]
     if isinstance(w, WhereResult):
         return mask_coords(interp, st, w.mask, node)
-    raise Outside("np.column_stack outside column_stack(np.where(mask))", node)
+    if isinstance(w, (tuple, list)) and w and all(isinstance(p, Grid) and p.rank == 1 and p.kind == w[0].kind for p in w):
+        # np.column_stack((a, b, ...)) of 1-d arrays of one length n: the (n, len) array whose columns are the arguments (np.vstack(...).T)
+        return np_transpose(interp, st, [np_vstack(interp, st, [tuple(w)], {}, node)], {}, node)
+    raise Outside("np.column_stack outside column_stack(np.where(mask)) / a tuple of 1-d arrays", node)
 
 
 def mask_coords(interp, st, mask, node):
@@ -1540,7 +1543,8 @@ def m_filt_append(interp, st, base, base_node, args, kwargs, node):
 
 def np_arange(interp, st, args, kwargs, node):
     I = _I()
-    if len(args) == 1 and not kwargs:
+    if len(args) == 1 and not (set(kwargs) - {"dtype"}):
+        # (the dtype only matters for arithmetic that could overflow: A-int64)
         return I.SymRange(0, args[0])
     raise Outside("np.arange with several arguments", node)
 
@@ -2049,7 +2053,7 @@ def m_ravel(interp, st, base, base_node, args, kwargs, node):
         return Arr((len(base.flat),), list(base.flat), base.kind)
     if not (isinstance(base, Grid) and base.rank == 2):
         raise Outside("ravel outside 2-d arrays", node)
-    R, C = base.dims
+    R, C = (_resolve_ite(interp, st, d) for d in base.dims)
     if isinstance(R, int) and isinstance(C, int):
         return Arr((R * C,), [base.select([i, j]) for i in range(R) for j in range(C)], base.kind)
     row, col, _ = unravel_fns()
@@ -2057,6 +2061,51 @@ def m_ravel(interp, st, base, base_node, args, kwargs, node):
         st.assume(ax)
     Cz = to_z3(as_int(C))
     return M.grid_lambda([M.s_mul(R, C)], base.kind, lambda idx: base.select([row(idx[0], Cz), col(idx[0], Cz)]), base.dtype)
+
+
+def _resolve_ite(interp, st, d, depth=0):
+    """a dimension written with if-then-else terms (the clamping of slice bounds) whose conditions are decided by the path condition: the same
+    number with every decided if-then-else replaced by the branch taken"""
+    if not is_sym(d):
+        return d
+    hyps = list(st.hyps())
+
+    def decided(c):
+        for cond, val in ((z3.Not(c), True), (c, False)):
+            s_ = z3.Solver()
+            s_.set("timeout", 2000)
+            for h in hyps:
+                s_.add(h)
+            s_.add(cond)
+            if V.guarded_check(s_, 2000) == z3.unsat:
+                return val
+        return None
+
+    def walk(t, budget=[40]):
+        if not z3.is_app(t) or t.num_args() == 0:
+            return t
+        kids = [walk(c) for c in t.children()]
+        if z3.is_app_of(t, z3.Z3_OP_ITE) and budget[0] > 0:
+            budget[0] -= 1
+            v = decided(kids[0])
+            if v is True:
+                return kids[1]
+            if v is False:
+                return kids[2]
+            # undecided, but both branches may denote the same number here (max(n - 1, 0) with n >= 1 is n - 1 either way)
+            whole = z3.If(kids[0], kids[1], kids[2])
+            for keep in (kids[1], kids[2]):
+                if not z3.is_int_value(keep) and decided(whole == keep) is True:
+                    return keep
+        return t.decl()(*kids)
+
+    out = z3.simplify(d)
+    for _ in range(3):
+        nxt = z3.simplify(walk(out, [40]))
+        if nxt.eq(out):
+            break
+        out = nxt
+    return out.as_long() if z3.is_int_value(out) else out
 
 
 def np_vstack(interp, st, args, kwargs, node):
@@ -2478,3 +2527,21 @@ def np_flip(interp, st, args, kwargs, node):
 
 
 LIBFUNCS.update({"np.flip": np_flip})
+
+
+def m_reshape_split_last(interp, st, base, base_node, args, kwargs, node):
+    """a.reshape(m, p, q) of an (n, p*q) array with constant p, q: out[k, e, c] == a[k, e*q + c]; m must be n (numpy raises otherwise: an obligation).
+    Other reshapes are outside the subset."""
+    M = _M()
+    shape = args[0] if len(args) == 1 and isinstance(args[0], (tuple, list)) else tuple(args)
+    if kwargs or not isinstance(base, Grid) or base.rank != 2 or len(shape) != 3:
+        raise Outside("reshape other than (n, p*q) -> (n, p, q)", node)
+    m, p_, q_ = (as_int(v) for v in shape)
+    if not (isinstance(p_, int) and isinstance(q_, int) and isinstance(base.dims[1], int) and base.dims[1] == p_ * q_):
+        raise Outside("reshape other than (n, p*q) -> (n, p, q) with constant p, q", node)
+    interp.ctx.oblige(st, to_z3(as_int(m)) == to_z3(as_int(base.dims[0])), f"reshape-size@{getattr(node, 'lineno', '?')}", node, "shape")
+    _trust("ndarray.reshape (C order): (n, p*q) -> (n, p, q) sends entry [k, e*q + c] to [k, e, c]")
+    return M.grid_lambda([base.dims[0], p_, q_], base.kind, lambda idx: base.select([idx[0], idx[1] * q_ + idx[2]]), base.dtype)
+
+
+METHODS[("Grid", "reshape")] = m_reshape_split_last
